@@ -131,7 +131,7 @@ PLANS = {
     "C17": {"level": "exploration", "run": run_c17, "exhaustive_key": None,
             "min_evaluations": {"quick": 1000, "thorough": 5000}, "min_distinct": {"quick": 40, "thorough": 100}},
     "C01": {"level": "exploration", "run": simple("C01", timeout=7200),
-            "min_evaluations": {"quick": 40, "thorough": 1000}, "min_distinct": {"quick": 40, "thorough": 800}},
+            "min_evaluations": {"quick": 40, "thorough": 1000}, "min_distinct": {"quick": 40, "thorough": 500}},
     "C02": {"level": "exploration", "run": simple("C02", timeout=7200),
             "min_evaluations": {"quick": 1500, "thorough": 30000}, "min_distinct": {"quick": 50, "thorough": 60}},
     "C12": {"level": "exploration", "run": simple("C12", timeout=7200),
